@@ -396,7 +396,49 @@ def check_pam(rng):
     return None
 
 
-CHECKS = [('predictive', check_predictive), ('population', check_population), ('prior', check_prior),
+def check_regimen(rng, exprs, label):
+    """include_regimen=True: every sample ID carries exactly the dose events scheduled up to the last requested time"""
+    import chi
+    from harness import c14
+    toy = c14.dosed_toy()
+    _, err = doubles()
+    pm = chi.PredictiveModel(toy(2, 1), [err(1)])
+    dose = rng.randint(1, 16) / 4
+    start = rng.choice([0.0, 0.5, 1.0, 2.0])
+    duration = rng.choice([0.25, 0.5])
+    period = rng.choice([None, 1.0, 2.0])
+    num = rng.choice([None, 2, 3]) if period else None
+    pm.set_dosing_regimen(dose, start=start, duration=duration, period=period, num=num)
+    k = rng.choice([0, 1, 2, 3])
+    last = start + k * (period or 1.0) + rng.choice([0.0, 0.0, 0.25, -0.25])     # often exactly on a dose time
+    last = max(last, 0.25)
+    times = sorted({last, max(0.125, last / 2)}, reverse=True)
+    n = rng.choice([1, 2])
+    df = pm.sample([1.0, 0.5, 0.25], times, n_samples=n, seed=1, include_regimen=True)
+    if period is None:
+        sched = [start]
+    elif num:
+        sched = [start + j * period for j in range(num)]
+    else:
+        sched = [start + j * period for j in range(1000)]
+    want = [(t, duration, dose) for t in sched if t <= last]
+    has = 'Dose' in df.columns and 'Duration' in df.columns
+    doses = df[df['Dose'].notna()] if has else df.iloc[0:0]
+    for i in range(1, n + 1):
+        mine = doses[doses['ID'] == i].sort_values('Time')
+        got = [(float(a), float(b), float(c)) for a, b, c in zip(mine['Time'], mine['Duration'], mine['Dose'])] if has else []
+        if len(got) != len(want) or any(abs(x - y) > 1e-9 for g, w in zip(got, want) for x, y in zip(g, w)):
+            return ('table with include_regimen=True, times up to %s: sample ID %d carries the dose events %s; the regimen '
+                    '(dose %s from %s every %s, %s times) schedules %s' % (last, i, got[:6], dose, start, period, num,
+                                                                           want[:6]))
+    meas = df[df['Dose'].isna()] if has else df
+    if len(meas) != n * len(times):
+        return 'table with include_regimen=True has %d measurement rows for %d samples x %d times' % (
+            len(meas), n, len(times))
+    return None
+
+
+CHECKS = [('regimen', check_regimen), ('predictive', check_predictive), ('population', check_population), ('prior', check_prior),
           ('posterior', check_posterior)]
 
 
